@@ -48,6 +48,49 @@ def padded_parent(parents, counts):
     return any(counts[b] < mx[lev[b]] for b in has_kids)
 
 
+def wide_level_cases(viol):
+    """levels that are many compartments wide.  The theorems are about exact arithmetic; in floating point the
+    recursive-doubling kernel of the `jaxley.stone` backend (tridiax.stone) under/overflows on a (padded) branch of
+    ~80-128 rows whose entries differ strongly in size - and the padding with identity rows manufactures exactly
+    that.  Reference: the dense backward-Euler system of tools/cablelib.py solved with LAPACK.
+    `jaxley.thomas` and `jax.sparse` must agree with it; `jaxley.stone` failing on a level >= 80 rows wide is the
+    known finding F64; any other disagreement is a violation."""
+    import numpy as np
+    import cablelib
+    import simlib
+    n_cases = 0
+    for name, counts, overrides in [
+        ("siblings of 128 and 16 compartments (16: r=1, l=1, r_a=100)", [1, 128, 16], {2: dict(r=1.0, l=1.0, ra=100.0)}),
+        ("siblings of 48 and 8 compartments (ordinary parameters)", [1, 48, 8], {2: dict(r=1.0, l=2.0, ra=1000.0)}),
+    ]:
+        parents = [-1, 0, 0]
+        n = sum(counts)
+        r, l, ra = [1.0] * n, [10.0] * n, [5000.0] * n
+        off = 0
+        for b, c in enumerate(counts):
+            for k in range(off, off + c):
+                if b in overrides:
+                    r[k], l[k], ra[k] = overrides[b]["r"], overrides[b]["l"], overrides[b]["ra"]
+            off += c
+        spec = cablelib.CellSpec(parents, counts, r, l, ra, [1.0] * n, [2.0 ** -13] * n, [-70.0] * n,
+                                 [-65.0 - (k % 7) for k in range(n)], [0.0] * n)
+        A, rhs = spec.system(0.025)
+        ref = np.linalg.solve(np.asarray([[float(x) for x in row] for row in A]), np.asarray([float(x) for x in rhs]))
+        cell = simlib.cell_from_spec(spec)
+        width = max(counts)
+        for vs in ("jaxley.thomas", "jax.sparse", "jaxley.stone"):
+            out = np.asarray(simlib.one_step(cell, 0.025, "bwd_euler", vs))
+            n_cases += 1
+            bad = (~np.isfinite(out)).any() or float(np.abs(out - ref).max()) > 1e-7
+            if bad:
+                known = vs == "jaxley.stone" and width >= 80
+                viol.append({"kind": "a backend returns NaN or voltages that are not the solution of the scheme on a wide level", "case": name,
+                             "counts": counts, "backend": vs, "non_finite": int((~np.isfinite(out)).sum()),
+                             "max_abs_err_mV": None if not np.isfinite(out).all() else float(np.abs(out - ref).max()),
+                             "finding_class": "stone_recursive_doubling_underflow" if known else None})
+    return n_cases
+
+
 def run(ctx):
     import numpy as np
     import jaxley as jx
@@ -245,6 +288,7 @@ def run(ctx):
     #      schedule checker (theorem C01_array_solver_correct)
     narr = 0
     nidx = 0
+    nasm = 0
     try:
         import hineslib
         from jaxley.solver_voltage import step_voltage_implicit_with_jaxley_spsolve  # noqa: F401
@@ -275,15 +319,15 @@ def run(ctx):
             except (AssertionError, NotImplementedError, ValueError):
                 continue        # the jaxley backends refuse this structure (allowed by the property)
             exprs += [hineslib.coq_step_expr(st, g, v0, vt, ct, dtq), hineslib.coq_step_expr(st, g, v0, vt, ct, dtq, fn="arr_divisors_okQ"), chk,
-                      hineslib.coq_mstore_expr(st, g, v0, vt, ct, dtq)]
+                      hineslib.coq_mstore_expr(st, g, v0, vt, ct, dtq), hineslib.coq_asmstruct_expr(st)]
             if "parents" in case:
                 # Model/HinesIdx.v (about which C01_checker_accepts_every_cell is proved) must produce
                 # exactly the index structure the code built
                 idx_jobs.append(("idx_summary " + hineslib.nat_list([max(q_, 0) for q_ in case["parents"]]) + " " + hineslib.nat_list(case["counts"]), case, st))
             metas.append((case, st, reals, dict(g=[float(x) for x in g], v=[float(x) for x in v0], vt=[float(x) for x in vt], ct=[float(x) for x in ct], dt=float(dtq))))
-        outs = coqeval.coq_eval(["CableQ", "HinesArr", "HinesArrQ", "HinesCheck"], exprs, shard=3)
+        outs = coqeval.coq_eval(["CableQ", "HinesArr", "HinesArrQ", "HinesCheck", "AsmStruct"], exprs, shard=5)
         for k, (case, st, reals, vals) in enumerate(metas):
-            model = [float(x) for x in cablelib.parse_q_list(outs[4 * k])]
+            model = [float(x) for x in cablelib.parse_q_list(outs[5 * k])]
             narr += 1
             evals += 2
             distinct.add(("arr", str(case)))
@@ -291,14 +335,29 @@ def run(ctx):
                 if len(o) != len(model) or max(abs(a - b) for a, b in zip(o, model)) > 1e-9 * 100:
                     viol.append(dict(case, kind="step_voltage_implicit_with_jaxley_spsolve differs from the array-level model (Model/HinesArr.v)",
                                      solver=sv, values=vals, got=o, model=model))
-            if outs[4 * k + 1] != "true":
+            if outs[5 * k + 1] != "true":
                 viol.append(dict(case, kind="the array-level model divides by zero on a diagonally dominant system", values=vals))
-            if outs[4 * k + 3] != "true":
+            if outs[5 * k + 3] != "true":
                 viol.append(dict(case, kind="the assembled arrays are not M-matrix-like (hypothesis of C01_array_solver_total)", values=vals, no_failing_input_found=True))
-            if outs[4 * k + 2] != "true":
+            if outs[5 * k + 4] != "true":
+                viol.append(dict(case, kind="the index lists the code hands to the assembly (comp_edges by type, branchpoint groups, child_inds, par_inds, slot remapping) are not consistent with layout and topology (hypothesis of C01_implicit_step_total)",
+                                 edges=st["edges"], group=st["group"], child_inds=st["child_inds"], par_inds=st["par_inds"], mask=st["mask"], no_failing_input_found=True))
+            if outs[5 * k + 2] != "true":
                 viol.append(dict(case, kind="the verified schedule checker rejects the index structure the code built (theorem C01_array_solver_correct no longer applies)",
                                  cumsum=st["cs"], padded=st["pl"], ncomp=st["nc"], levels=st["levels"], roots=st["roots"], no_failing_input_found=True))
         import ast
+        # Model/AsmIdx.v (about which C01_implicit_step_of_every_cell_total is proved) must produce exactly the edge
+        # table, slot remapping, branch-point groups, child_inds and par_inds the code built
+        asm_exprs = ["asm_summary " + j[0].split(" ", 1)[1] for j in idx_jobs]
+        outs3 = coqeval.coq_eval(["HinesArr", "HinesCheck", "HinesIdx", "AsmStruct", "AsmIdx"], asm_exprs, prelude="Close Scope Q_scope. Open Scope nat_scope.", shard=6)
+        for (expr, case, st), o in zip(idx_jobs, outs3):
+            ts, (mk, (gr, (ch, pr))) = ast.literal_eval(o.replace("%nat", "").replace(";", ","))
+            model_asm = ([tuple(t) for t in ts], list(mk), list(gr), list(ch), list(pr))
+            real_asm = ([tuple(e) for e in st["edges"]], st["mask"], st["group"], st["child_inds"], st["par_inds"])
+            nasm += 1
+            if model_asm != real_asm:
+                viol.append(dict(case, kind="the edge table / slot remapping / branch-point groups / child_inds / par_inds built by the code differ from Model/AsmIdx.v (theorem C01_implicit_step_of_every_cell_total is about the model)",
+                                 code=repr(real_asm)[:700], model=repr(model_asm)[:700], no_failing_input_found=True))
         outs2 = coqeval.coq_eval(["HinesArr", "HinesCheck", "HinesIdx"], [j[0] for j in idx_jobs], prelude="Close Scope Q_scope. Open Scope nat_scope.", shard=6)
         for (expr, case, st), o in zip(idx_jobs, outs2):
             cum, (plm, lev) = ast.literal_eval(o.replace("%nat", "").replace(";", ","))
@@ -311,12 +370,26 @@ def run(ctx):
     except Exception as ex:
         import traceback
         viol.append({"kind": "array-level correspondence could not be evaluated", "error": repr(ex)[:500], "trace": traceback.format_exc()[-600:], "no_failing_input_found": True})
+    try:
+        evals += wide_level_cases(viol)
+    except Exception as ex:
+        import traceback
+        viol.append({"kind": "wide-level cases raised", "error": repr(ex)[:300], "trace": traceback.format_exc()[-600:]})
     for v in viol:
         v.setdefault("finding_class", None)
+    seen_fc, dedup = set(), []
+    for v in viol:
+        fc = v.get("finding_class")
+        if fc and fc in seen_fc:
+            continue
+        if fc:
+            seen_fc.add(fc)
+        dedup.append(v)
+    viol = dedup
     return {"evaluations": evals, "distinct_nontrivial": len(distinct),
             "rule": "one voltage step of every enumerated sorted tree (<=4/5 branches) x sampled compartment counts {1,2,3} + random larger trees, heterogeneous dyadic parameters, optional stimulus, dt in {0.025 .. 1e9}, bwd/CN x 3 backends + fwd on cables + networks; each output checked by exact backward error against an independent physical assembly and against Model/Cable.v in exact rationals; distinct by (tree, counts)",
             "samples": samples, "violations": viol[:20], "traces_validated_against_impl": nmodel,
-            "cases_with_padded_parent_branch": ncrit, "array_level_modules": narr, "index_structures_compared": nidx}
+            "cases_with_padded_parent_branch": ncrit, "array_level_modules": narr, "index_structures_compared": nidx, "assembly_index_lists_compared": nasm}
 
 
 def replay(ctx, case):
